@@ -146,6 +146,21 @@ pub fn generate(_cfg: &RunCfg, _out: &mut Outcome) -> Scenario {
                 ("padding-variant", Some(format!("Basic {v}").into_bytes()))
             }
             6 if t::chance(1, 4) => {
+                // the right credentials as one member of a list: the value is not `Basic <base64>`. In one line (strict), or
+                // as two `Authorization` lines (grey: which line is "the" header is the server's choice — only the shape
+                // of the answer is checked)
+                let e = STANDARD.encode(&good);
+                let other = t::pick(&["Bearer gateway-token", "Digest username=\"x\"", "Basic d3Jvbmc6d3Jvbmc=", "garbage", ""]);
+                let first = t::chance(1, 2);
+                if t::chance(2, 3) {
+                    let v = if first { format!("Basic {e}, {other}") } else { format!("{other}, Basic {e}") };
+                    ("list-with-the-pair", Some(v.into_bytes()))
+                } else {
+                    let v = if first { format!("Basic {e}\r\nAuthorization: {other}") } else { format!("{other}\r\nAuthorization: Basic {e}") };
+                    ("two-lines-with-the-pair", Some(v.into_bytes()))
+                }
+            }
+            6 if t::chance(1, 3) => {
                 // user and password joined by something that is not a colon
                 let (u, p) = t::pick(&pairs).clone();
                 let sep = t::pick(&[";", " ", "|", "\u{0}", "X", "/", "="]);
@@ -372,7 +387,10 @@ fn execute(sc: &Scenario, out: &mut Outcome) {
             out.probe("c13.admitted_elsewhere_refused_here");
         }
         out.states.push(format!("{}|{}", r.kind, if should { "admit" } else { "refuse" }));
-        let grey = r.kind == "other-scheme" && r.authorization.as_deref().map(|a| a.to_ascii_lowercase().starts_with(b"basic ")).unwrap_or(false);
+        let grey = (r.kind == "other-scheme" && r.authorization.as_deref().map(|a| a.to_ascii_lowercase().starts_with(b"basic ")).unwrap_or(false)) || r.kind == "two-lines-with-the-pair";
+        if r.kind == "list-with-the-pair" {
+            out.probe("c13.pair_inside_a_list_value");
+        }
         if r.kind == "padding-variant" && !should {
             out.probe("c13.padding_variant_refused");
         }
@@ -400,7 +418,14 @@ fn execute(sc: &Scenario, out: &mut Outcome) {
                 return;
             }
             (false, true) => {
-                if grey {
+                if r.kind == "two-lines-with-the-pair" {
+                    // admitted on the strength of one of the two lines: that line alone must be admissible here
+                    let text = String::from_utf8_lossy(r.authorization.as_deref().unwrap_or_default()).into_owned();
+                    if text.split("\r\nAuthorization: ").any(|line| judge(realm_pairs, Some(line.as_bytes()))) {
+                        out.probe("c13.two_authorization_lines_admitted");
+                        continue;
+                    }
+                } else if grey {
                     // the spelling is grey, but the credentials themselves must still be a configured pair
                     let inner_ok = r
                         .authorization
